@@ -81,7 +81,7 @@ class Recorder:
         # the watchdog separates "does not come back" from "slow": some legal calls take tens of seconds on a loaded
         # machine (substituting polynomials under retain_coefficients=True); after a time-out in this process the
         # later calls get a short leash so that a library that hangs everywhere cannot stall a whole check
-        self.timeout_s = max(timeout_s, 90.0) if TIMEOUTS["seen"] == 0 else 5.0
+        self.timeout_s = timeout_s if TIMEOUTS["seen"] == 0 else min(timeout_s, 5.0)
         self.meta = {}
         self.state = {"cms": []}    # harness-side state actions may need (open context managers)
         if PRELUDE is not None:
@@ -116,7 +116,8 @@ class Recorder:
                 signal.signal(signal.SIGALRM, old)
         except CallTimeout:
             out, result = "timeout", None
-            TIMEOUTS["seen"] += 1
+            if act != "any":             # the frame driver calls division without the loop observer: its time-outs are expected
+                TIMEOUTS["seen"] += 1
         except Exception as exc:  # noqa: BLE001 - every exception is an observation
             out, result = "raise", exc
         ms = (time.perf_counter() - t0) * 1000.0
